@@ -84,6 +84,21 @@ CLAIMED = {
         'repository\'s own accessors; readdir order = os.listdir order; g_slist_sort stable; strtol per ISO C; lazy '
         'loading and cyclic dependency sets not modelled.',
    ref='DESIGN.md §4 C17'),
+ 'C14': dict(
+   technique='Coq proof of the lookup logic for an arbitrary hash (soundness) and under a checked perfect-hash hypothesis (completeness), size arithmetic regenerated from source + correspondence through the real compiler and repository API',
+   text='Theorems (Coq, axiom-free): whatever the hash function and table contain, an entry returned through the index or '
+        'the linear path has exactly the probed name and an absent name yields none (C14_lookup_sound, C14_linear_sound, '
+        'C14_absent); if the packed hash is injective on the names and below n, every entry is found through the table '
+        'the builder writes and both paths agree on every probe (C14_complete, C14_paths_agree); GType-name and '
+        'error-domain scans return the first matching entry or none; the two-pass repository search finds a type iff '
+        'some typelib registers it (C14_find_by_gtype); the reserved section is at least the packed size for every entry '
+        'count, with ALIGN_VALUE and the width of required_size regenerated from the sources (C14_pack_arith). '
+        'CMPH\'s minimal-perfect-hash construction is NOT proved: it is the hypothesis of the completeness theorems and '
+        'is checked on every generated key set. Tie: gthash.c builder/search driven directly; namespaces of 1..33000 '
+        '(thorough 65535) entries compiled by the real compiler and queried through find_by_name/gtype/error_domain '
+        'with and without the index section. One defect found and fixed.',
+   note='Trusted: Coq kernel+VM; cexpr translator; cshim; CMPH as a tested oracle; strcmp/strlen per ISO C.',
+   ref='DESIGN.md §4 C14'),
 }
 
 PLANNED = {}
